@@ -88,6 +88,17 @@ POOL = [
     # regional locales whose own overrides decide the reading (date order of en-AU; 'mth' of en-CA is above)
     mk("loc_au", "ddp", "01/02/2015", None, locales=["en-AU"]), mk("loc_fr_ca", "ddp", "01/02/2015", None, locales=["fr-CA"]),
     mk("search_en_first", "search", "It was on 4 October 1957", "en", adl=False),
+    # paths no other pool call enters: epoch literal under a zone, DEFAULT_LANGUAGES fallback, a zone written in the string
+    # (stripped for the applicability test), a search text that only parses after being split at commas
+    mk("ts_tokyo", "parse", "1500000000", "en", {"TIMEZONE": "Asia/Tokyo", "TO_TIMEZONE": "UTC"}),
+    mk("deflang_fr", "parse", "12 mai 2015", "en", {"DEFAULT_LANGUAGES": ["fr"]}),
+    mk("en_strtz", "parse", "12 May 2015 10:30 EST", "en", {"TO_TIMEZONE": "UTC"}),
+    mk("search_en_split", "search", "May 5, 2014, June 6, 2015, then nothing", "en", adl=False),
+    # no reference time given: search_dates takes the date found first as the reference of the relative phrase after it
+    # (it rewrites the settings of its parser to do so); and a language searched without prior translation (hu)
+    mk("search_en_relbase", "search", "I saw him on 12 May 2015. two days ago it rained", "en", adl=False, nobase=True),
+    mk("search_fr_relbase", "search", "Nous sommes le 3 mars 2011. Hier il a plu.", "fr", adl=False, nobase=True),
+    mk("search_hu", "search", "2015. május 12. volt", "hu", adl=True),
 ]
 for _i, _c in enumerate(POOL):
     _c["id"] = _i
@@ -110,7 +121,9 @@ PAIRS = [("fr_num", "en_num"), ("en_num", "en_dmy"), ("fr_num", "default"), ("en
 
 
 PAIRS += [("search_fr_inst", "search_en"), ("en_dmy_inst", "fr_num"), ("search_fr_inst", "en_dmy_inst"), ("loc_au", "en_num"),
-          ("loc_au", "loc_fr_ca")]
+          ("loc_au", "loc_fr_ca"), ("ts_tokyo", "en_tz2"), ("deflang_fr", "fr_num"), ("en_strtz", "en_tz"),
+          ("search_en_split", "search_fr"), ("search_en_relbase", "search_fr_relbase"), ("search_en_relbase", "search_en"),
+          ("search_hu", "search_en"), ("search_fr_relbase", "fr_num")]
 # cold schedules (fresh interpreter per schedule, A's call is the first use of everything it touches): A, B
 COLD_PAIRS = [("search_en_first", "loc_au"), ("search_fr", "loc_fr_ca"), ("loc_au", "search_en_first"), ("en_num", "loc_au"),
               ("loc_ca", "loc_au"), ("rel_de", "search_de_words")]
@@ -118,7 +131,7 @@ COLD_FILES = ("languages/loader.py", "conf.py")     # quick: every line of these
 
 
 # pairs explored with two pre-emptions (A outside the lock while B is half-way): calls that do work outside the lock
-TWO_PREEMPTIONS = {("hijri_amb", "fr_default"), ("jalali_amb", "fr_default"), ("search_ru_range", "search_en"),
+TWO_PREEMPTIONS = {("search_en_relbase", "search_fr_relbase"), ("hijri_amb", "fr_default"), ("jalali_amb", "fr_default"), ("search_ru_range", "search_en"),
                    ("search_en_words", "en_skipfoo"), ("fmt_tz_est", "fmt_tz_tokyo")}
 
 
